@@ -180,3 +180,28 @@ Proof.
       symmetry. apply c09_cond_nth; lia.
   - unfold c09_vbcast, c09_bcast, c09_tab. clear. generalize 0. induction W; simpl; intros; auto. now rewrite IHW.
 Qed.
+
+(* ---- trait forwarding over the type grammar: for EVERY lane count S and EVERY alignment A at every nesting level ---- *)
+Lemma c09_ty_eqb_refl : forall t, c09_ty_eqb t t = true.
+Proof. induction t; simpl. - now rewrite Nat.eqb_refl, !eqb_reflx. - now rewrite !Nat.eqb_refl, IHt. Qed.
+
+Lemma P_traits_forward : forall (t u : c09_ty), (exists i h n, u = C09_TScalar i h n) ->
+  c09_ty_hasnan t = c09_ty_hasnan (c09_ty_scalar t) /\
+  c09_ty_isnumber t = c09_ty_isnumber (c09_ty_scalar t) /\
+  (forall S A, c09_ty_hasnan (C09_TSimd S A t) = c09_ty_hasnan t /\ c09_ty_isnumber (C09_TSimd S A t) = c09_ty_isnumber t /\
+               c09_ty_lanes (C09_TSimd S A t) = S * c09_ty_lanes t /\ c09_ty_scalar (C09_TSimd S A t) = c09_ty_scalar t /\
+               c09_ty_rebind u (C09_TSimd S A t) = C09_TSimd S A (c09_ty_rebind u t)) /\
+  c09_ty_lanes (c09_ty_rebind u t) = c09_ty_lanes t /\
+  c09_ty_scalar (c09_ty_rebind u t) = u /\
+  c09_ty_hasnan (c09_ty_rebind u t) = c09_ty_hasnan u /\
+  c09_ty_isnumber (c09_ty_rebind u t) = c09_ty_isnumber u /\
+  c09_ty_rebind (c09_ty_scalar t) t = t /\
+  c09_ty_rebind (c09_ty_scalar t) (c09_ty_rebind u t) = t /\
+  (exists i h n, c09_ty_scalar t = C09_TScalar i h n).
+Proof.
+  intros t u [i [h [n E]]]. subst u.
+  induction t as [j k m|S A t IH]; simpl.
+  - repeat split; eauto.
+  - destruct IH as [H1 [H2 [_ [H4 [H5 [H6 [H7 [H8 [H9 H10]]]]]]]]].
+    repeat split; auto; try congruence.
+Qed.
